@@ -56,8 +56,8 @@ func VerifC02LoadVpr(s *statedb.ContractState) (*VerifC02Vpr, error) {
 }
 func (h *VerifC02Vpr) VerifC02Add(id types.AccountID, addr []byte, p *big.Int) { h.v.add(id, addr, p) }
 func (h *VerifC02Vpr) VerifC02Sub(id types.AccountID, addr []byte, p *big.Int) { h.v.sub(id, addr, p) }
-func (h *VerifC02Vpr) VerifC02Apply(s *statedb.ContractState) (int, error)   { return h.v.apply(s) }
-func (h *VerifC02Vpr) VerifC02Total() *big.Int                                { return h.v.getTotalPower() }
+func (h *VerifC02Vpr) VerifC02Apply(s *statedb.ContractState) (int, error)     { return h.v.apply(s) }
+func (h *VerifC02Vpr) VerifC02Total() *big.Int                                 { return h.v.getTotalPower() }
 
 // VerifC02Buckets observes store.buckets: bucket index -> (account id, power) in list order.
 func (h *VerifC02Vpr) VerifC02Buckets() map[uint8][][2][]byte {
